@@ -20,17 +20,6 @@ func VerifC16_TransportRoundTripLogical() {
 	symx.Reach("end")
 }
 
-var c16Init bool
-
-func c16Setup() {
-	if !c16Init {
-		common.Init(0, "verif.ini", "mainnet")
-		InitConsensus()
-		c16Init = true
-	}
-	common.SetBlockHeight(1 << 40)
-}
-
 // Qualification rule: for every 32-byte lottery value (symbolic) and each of the enumerated
 // total-stake / working-miner / height combinations, validateProve does not panic, and whenever it
 // accepts, the quality number lies between 1 and MaxQN.
